@@ -363,9 +363,51 @@ func (e *Engine) isWaited(structT types.Type, field int) bool {
 }
 
 // guardedSVs: state variables of every guarded field, plus the element/map heaps of guarded slices/maps.
-func (e *Engine) guardedSVs(vc *VC) []string {
+// lockClassOf: the lock class of the mutex an SSA value denotes (by its static origin).
+func (e *Engine) lockClassOf(v ssa.Value) string {
+	var fa *ssa.FieldAddr
+	switch x := v.(type) {
+	case *ssa.FieldAddr:
+		fa = x
+	case *ssa.UnOp:
+		if f, ok := x.X.(*ssa.FieldAddr); ok {
+			fa = f
+		}
+	}
+	if fa == nil {
+		return ""
+	}
+	structT := fa.X.Type().Underlying().(*types.Pointer).Elem()
+	n := namedOf(structT)
+	if n == nil || n.Obj().Pkg() == nil {
+		return ""
+	}
+	fname := structT.Underlying().(*types.Struct).Field(fa.Field).Name()
+	for _, g := range e.contracts.Guards {
+		if g.Pkg == n.Obj().Pkg().Path() && g.Struct == n.Obj().Name() && g.LockField == fname {
+			return g.Class
+		}
+	}
+	for _, c := range e.contracts.Conds {
+		if c.Pkg == n.Obj().Pkg().Path() && c.Name == n.Obj().Name()+"."+fname {
+			return c.Class
+		}
+	}
+	// a cond field of another struct that shares a declared cond's name suffix (muxerStream.cond -> class of its guard)
+	for _, g := range e.contracts.Guards {
+		if g.Pkg == n.Obj().Pkg().Path() && g.Struct == n.Obj().Name() && fname == "cond" {
+			return g.Class
+		}
+	}
+	return ""
+}
+
+func (e *Engine) guardedSVs(vc *VC, class string) []string {
 	set := map[string]bool{}
 	for _, g := range e.contracts.Guards {
+		if class != "" && g.Class != class {
+			continue
+		}
 		t := e.structByName(g.Pkg, g.Struct)
 		if t == nil {
 			continue
@@ -457,8 +499,10 @@ func (e *Engine) verifyFunction(fc *FuncContract) (*VC, error) {
 	vc.svDeclare("G_alloc", "Int")
 	vc.fact("true", fmt.Sprintf("(> %s 1)", vc.svInit["G_alloc"]))
 	vc.svDeclare("G_held", "(Array Int Int)")
+	vc.svDeclare("G_nheld", "Int")
 	vc.svDeclare("G_dirty", "Bool")
 	vc.fact("true", fmt.Sprintf("(not %s)", vc.svInit["G_dirty"]))
+	vc.fact("true", fmt.Sprintf("(>= %s 0)", vc.svInit["G_nheld"]))
 	fr := vc.newFrame(fn, 0)
 	fr.top = true
 	vc.topFrame = fr
@@ -490,6 +534,7 @@ func (e *Engine) verifyFunction(fc *FuncContract) (*VC, error) {
 		}
 	}
 	vc.entry = st.clone()
+	vc.frameSetup(fr, fc)
 	// precondition satisfiable (vacuity guard)
 	vc.cover(st, "requires", "the precondition is satisfiable", fn.Pos())
 	exit, res := vc.execFunction(fr, st, args)
@@ -540,4 +585,132 @@ func (e *Engine) fnByShort(name string) *ssa.Function {
 		}
 	}
 	return nil
+}
+
+
+// frameSetup evaluates the modifies clause at entry: which state variables may be written wholly,
+// and which objects of the others.
+func (vc *VC) frameSetup(fr *Frame, fc *FuncContract) {
+	vc.frameWhole = map[string]bool{}
+	vc.frameObjs = map[string][]string{}
+	for _, m := range fc.Modifies {
+		m = strings.TrimSpace(m)
+		if strings.HasPrefix(m, "ghost ") {
+			continue
+		}
+		if strings.HasSuffix(m, "[*]") {
+			v, err := vc.specEval(fr, vc.entry, vc.entry, strings.TrimSuffix(m, "[*]"), nil)
+			if err != nil {
+				vc.unsupportedf("modifies %s: %v", m, err)
+				continue
+			}
+			if sl, ok := v.typ.Underlying().(*types.Slice); ok {
+				sv := vc.elemSV(sl.Elem())
+				vc.frameObjs[sv] = append(vc.frameObjs[sv], vc.def("Int", fmt.Sprintf("(s_arr %s)", v.term), "fr"))
+			}
+			continue
+		}
+		i := strings.LastIndex(m, ".")
+		if i < 0 {
+			continue
+		}
+		baseS, field := m[:i], m[i+1:]
+		if t := vc.eng.lookupNamedType(fr.fn, baseS); t != nil {
+			for _, sv := range vc.svsOfField(t, field) {
+				vc.frameWhole[sv] = true
+			}
+			if st, ok := t.Underlying().(*types.Struct); ok {
+				for i := 0; i < st.NumFields(); i++ {
+					if st.Field(i).Name() != field {
+						continue
+					}
+					switch u := st.Field(i).Type().Underlying().(type) {
+					case *types.Map:
+						d, v := vc.mapSV(u)
+						vc.frameWhole[d], vc.frameWhole[v] = true, true
+					}
+				}
+			}
+			continue
+		}
+		v, err := vc.specEval(fr, vc.entry, vc.entry, baseS, nil)
+		if err != nil {
+			vc.unsupportedf("modifies %s: %v", m, err)
+			continue
+		}
+		bt := v.typ
+		if pt, ok := bt.Underlying().(*types.Pointer); ok {
+			bt = pt.Elem()
+		}
+		var pkg *types.Package
+		if n, ok := bt.(*types.Named); ok {
+			pkg = n.Obj().Pkg()
+		}
+		obj, path, _ := types.LookupFieldOrMethod(bt, true, pkg, field)
+		if _, ok := obj.(*types.Var); !ok {
+			vc.unsupportedf("modifies %s: no such field", m)
+			continue
+		}
+		cur, curT := v.term, bt
+		for k, idx := range path {
+			if pt, ok := curT.Underlying().(*types.Pointer); ok {
+				curT = pt.Elem()
+			}
+			loc := vc.fieldLoc(cur, curT, idx)
+			ft := curT.Underlying().(*types.Struct).Field(idx).Type()
+			if k == len(path)-1 {
+				if loc.kind == "sub" {
+					ms := map[string]bool{}
+					vc.modStruct(ft, ms)
+					for sv := range ms {
+						vc.frameWhole[sv] = true
+					}
+				} else {
+					vc.frameObjs[loc.sv] = append(vc.frameObjs[loc.sv], vc.def("Int", cur, "fr"))
+					// a map-typed field: its contents may change too
+					if mt, ok := ft.Underlying().(*types.Map); ok {
+						d, vv := vc.mapSV(mt)
+						mref := vc.def("Int", vc.readLoc(vc.entry, loc), "fr")
+						vc.frameObjs[d] = append(vc.frameObjs[d], mref)
+						vc.frameObjs[vv] = append(vc.frameObjs[vv], mref)
+					}
+				}
+				break
+			}
+			if loc.kind == "sub" {
+				cur = loc.subRef
+			} else {
+				cur = vc.readLoc(vc.entry, loc)
+			}
+			curT = ft
+		}
+	}
+}
+
+// assignCheck: a write to object obj of state variable sv is allowed by the modifies clause
+// (or the object was allocated by this function).
+func (vc *VC) assignCheck(fr *Frame, st *State, sv, obj string, pos token.Pos) {
+	if vc.inSpec > 0 || vc.fc == nil || vc.fc.ModifiesAll || vc.fc.NoFrame || vc.frameWhole == nil {
+		return
+	}
+	if vc.frameWhole[sv] {
+		return
+	}
+	alts := []string{fmt.Sprintf("(>= %s %s)", obj, vc.allocBound(vc.entry))}
+	for _, o := range vc.frameObjs[sv] {
+		alts = append(alts, fmt.Sprintf("(= %s %s)", obj, o))
+	}
+	vc.oblige(st, "frame", fmt.Sprintf("%s%s.%d", fnTagDot(fr), sv, vc.ordinal("frame/"+fnTagDot(fr)+sv)),
+		"write to "+sv+" targets an object named in the modifies clause (or allocated by this function)", "(or "+strings.Join(alts, " ")+")", pos)
+}
+
+func (vc *VC) assignCheckWhole(fr *Frame, st *State, sv string, pos token.Pos) {
+	if vc.inSpec > 0 || vc.fc == nil || vc.fc.ModifiesAll || vc.fc.NoFrame || vc.frameWhole == nil {
+		return
+	}
+	if vc.frameWhole[sv] {
+		return
+	}
+	vc.oblige(st, "frame", fmt.Sprintf("%s%s.whole.%d", fnTagDot(fr), sv, vc.ordinal("frame/"+fnTagDot(fr)+sv)),
+		"callee may modify "+sv+" of any object; the caller's modifies clause must allow that", "false", pos)
 }
